@@ -25,7 +25,11 @@ import pipe_common
 import pipeline
 from common import Check, main_wrapper
 
+# gen2:<p> = the OUTPUT of profile <p> is compiled again (same or other options, sometimes a third time; harness/regen.py):
+# interface and CPU operators of the FIRST source must still be preserved in the final file, and the Ethos-U operators of the first
+# output must be passed through verbatim (Lean `ethosuverbatim`)
 PROFILES = ["c11", "c11", "cpu", "c11", "mixed", "c11", "weird", "c11"]
+GEN2_PROFILES = ["gen2:c11", "gen2:mixed", "gen2:c11", "gen2:cpu"]      # run in addition (n // 4), the population above is unchanged
 
 
 # ------------------------------------------------------------------------------------------------
@@ -73,21 +77,60 @@ def make_job_net(rng, idx, profile):
     return pipe_common.make_net(rng, idx, profile)
 
 
+def unhex(text):
+    """tensor names travel as hex through the Lean side; readable form for a message"""
+    def f(m):
+        try:
+            return "'" + bytes.fromhex(m.group(0)).decode("utf-8") + "'"
+        except Exception:  # noqa: B902
+            return m.group(0)
+    return re.sub(r"\b(?:[0-9a-f]{2}){4,}\b", f, text)
+
+
+def plan_offsets(model_bytes):
+    """arena offset per tensor index of subgraph 0, one list per OfflineMemoryAllocation entry of the file (plain walker)"""
+    import struct
+
+    m = fbwalk.parse(model_bytes)
+    n = len(m["subgraphs"][0]["tensors"])
+    out = []
+    for name, b in m["metadata_list"]:
+        if name == "OfflineMemoryAllocation":
+            raw = m["buffers"][b] or b""
+            vals = struct.unpack("<%di" % (len(raw) // 4), raw[:len(raw) // 4 * 4])
+            out.append(list(vals[3:3 + n]))
+    return out
+
+
+def verbatim_line(first_out, final_out):
+    """`ethosuverbatim` request: the compiled input of the later generations against the final file (same graph tokens as
+    `preserve`), plus the arena offsets the two files assign"""
+    import preserve_dump
+
+    line = "ethosuverbatim" + preserve_dump.preserve_line(first_out, final_out)[0][len("preserve"):]
+    sp, op = plan_offsets(first_out), plan_offsets(final_out)
+    if sp:
+        line += " s.plan=" + ",".join(map(str, sp[-1])) + " o.plans=" + ";".join(",".join(map(str, p)) for p in op)
+    return line
+
+
 def _worker(job):
     seed, idx, profile = job
     import netgen
     import preserve_dump
 
-    rng = random.Random((seed << 20) ^ (idx * 7919) ^ zlib.crc32(profile.encode()))
+    gen2 = profile.startswith("gen2:")
+    base = profile.split(":", 1)[1] if gen2 else profile
+    rng = random.Random((seed << 20) ^ (idx * 7919) ^ zlib.crc32(base.encode()))
     out = {"idx": idx, "profile": profile, "seed": seed}
     try:
-        net = make_job_net(rng, idx, profile)
-        if profile.startswith("sweep:"):
+        net = make_job_net(rng, idx, base)
+        if base.startswith("sweep:"):
             import sweep
 
-            opts = sweep.config(rng, profile, idx)
+            opts = sweep.config(rng, base, idx)
         else:
-            opts = pipe_common.sample_config(rng, "mixed" if profile == "c11" else profile)
+            opts = pipe_common.sample_config(rng, "mixed" if base == "c11" else base)
         if rng.random() < 0.1:
             opts.append("--force-symmetric-int-weights")
         for e in getattr(net, "extra_opts", []):
@@ -97,13 +140,32 @@ def _worker(job):
                 opts.append(e)
         data = netgen.serialize(net)
         out.update(desc=net.describe(), opts=opts, features=net_features(net), src_model=data)
-        res = pipeline.compile_net(data, opts, name=f"n{idx}", introspect=False)
+        import writer_stage
+        import wtree
+
+        with writer_stage.capture() as cap:      # the graph as it is right before tflite_writer.write_tflite runs
+            res = pipeline.compile_net(data, opts, name=f"n{idx}", introspect=False)
+        if cap.error:
+            out["wdesc_error"] = cap.error
+        first_out = res.out_model
+        if cap.desc is not None and res.status == "ok" and res.out_model is not None:
+            # writer model against the file of THIS (first) compilation
+            out["wdesc"] = cap.desc
+            out["wtree"] = wtree.text(wtree.walk(first_out))
+        if gen2 and res.status == "ok" and res.out_model is not None:
+            import regen
+
+            # second (third) generation: `res` becomes the result of the last compilation, `first_out` stays the first output
+            res = regen.recompile(out, rng, res, opts, "mixed" if base == "c11" else base, f"n{idx}", {}, introspect=False)
         out.update(status=res.status, exc=(type(res.exc).__name__ + ": " + str(res.exc))[:300] if res.exc is not None else "",
                    exc_site=pipe_common.exc_site(res.tb, res.exc), stdout_tail=res.stdout[-300:])
         if res.status == "ok" and res.out_model is not None:
             out["out_model"] = res.out_model
             line, _s, o = preserve_dump.preserve_line(data, res.out_model)
             out["line"] = line
+            if gen2 and out.get("gen_count", 1) > 1:
+                # the compiled input of the later generations against the final file (same graph tokens, other request)
+                out["verbatim_line"] = verbatim_line(first_out, res.out_model)
             out["walker_view"] = preserve_dump.walker_view(o)
             d = tempfile.mkdtemp(prefix="velaverif_rr_")
             p = os.path.join(d, "out.tflite")
@@ -308,6 +370,20 @@ def replay(ck, path):
     print("compile:", res.status, res.exc or "")
     if res.status != "ok" or res.out_model is None:
         ck.finish({"evaluations": 1, "distinct_nontrivial": 0, "rule": "replay"})
+    first_out = res.out_model
+    for g, gopts in enumerate((r.get("gen_opts") or [])[1:], start=2):
+        # second (third) generation: the previous output is the input
+        pipeline.reset_process_state()
+        res = pipeline.compile_net(res.out_model, gopts, name="n_vela", introspect=False)
+        print(f"generation {g}:", res.status, res.exc or "")
+        if res.status != "ok" or res.out_model is None:
+            ck.finish({"evaluations": 1, "distinct_nontrivial": 0, "rule": "replay"})
+    if r.get("gen_opts"):
+        vb = verbatim_line(first_out, res.out_model)
+        vans = ck.model([vb], parallel=False)[0]
+        print("ethosuverbatim:", vans)
+        if vans.startswith("bad"):
+            ck.violation("Ethos-U operator of the compiled input not passed through verbatim: " + vans[:300], dict(r, verdict=vans))
     line, _s, _o = preserve_dump.preserve_line(data, res.out_model)
     ans = ck.model([line], parallel=False)[0]
     print("verdict:", ans)
@@ -321,7 +397,7 @@ def replay(ck, path):
 
 def main():
     ck = Check("C11", "other")
-    lean = ck.lean_stage(["VelaVerif.Props.C11"])
+    lean = ck.lean_stage(["VelaVerif.Props.C11", "VelaVerif.Props.C11Writer"])
     common.setup_repo_path()
     pipeline.load_vela()
     if ck.replay_arg:
@@ -341,6 +417,12 @@ def main():
         ck.violation(f"model of the writer's tensor order disagrees with sorted(): {r}: python {e} model {a}",
                      {"request": r, "python": e, "model": a}, found_input=False)
 
+    # ---- the writer and the reader against their models, on generated files (harness/writer_stage.py) ----------
+    import writer_stage
+
+    wstats, wcases = writer_stage.function_stage(ck, 6000 if ck.thorough else 700, 1200 if ck.thorough else 150)
+    n_hash = writer_stage.hashseed_stage(ck, wcases, [1, 2, 3, 4, 5, 6] if ck.thorough else [1, 2, 3], 400 if ck.thorough else 60)
+
     # ---- pipeline artefacts ----------------------------------------------------------------------
     n = 7000 if ck.thorough else 480
     import sweep
@@ -348,6 +430,8 @@ def main():
     # the pattern sweep first (harness/sweep.py): every named pattern under the configurations that make it bite
     jobs = [(ck.seed, i, p) for p, i in sweep.jobs(ck.thorough)]
     jobs += [(ck.seed, i, PROFILES[i % len(PROFILES)]) for i in range(n)]
+    # second-generation compilations in addition (design.d/History.md), never interleaved into the rotation above
+    jobs += [(ck.seed, i, GEN2_PROFILES[i % len(GEN2_PROFILES)]) for i in range(n // 4)]
     outs = run_jobs(jobs)
     lines, owners = [], []
     rr_lines, rr_owners = [], []
@@ -377,6 +461,62 @@ def main():
             rr_owners.append(o)
     answers = ck.model(lines)
     rr_answers = ck.model(rr_lines) if rr_lines else []
+    # the output file against the writer model applied to the graph captured right before serialisation
+    w_owners = [o for o in owners if "wdesc" in o]
+    w_answers = ck.model([x for o in w_owners for x in ("wwrite " + o["wdesc"] + " " + o["wtree"], "wspec " + o["wdesc"] + " " + o["wtree"])])
+    loop_answers = ck.model(["wloop " + o["wdesc"] for o in w_owners])
+    for o, a in zip(w_owners, loop_answers):
+        ck.count("wpipe_loop_" + ":".join(a.split(" ")[0].split(":")[:2]))
+        if (a.startswith("differ") or a.startswith("err:rewrite")) and ck.counters.get("wpipe_loop_reported", 0) < 3:
+            ck.count("wpipe_loop_reported")
+            ck.violation(f"read_write_roundtrip fails on the models for the graph of network {o['idx']} {o['profile']}: {a[:200]}",
+                         dict(replay_of(o), answer=a), found_input=False)
+    for o in owners:
+        if "wdesc_error" in o:
+            ck.count("wpipe_undescribable")
+    w_budget = {}
+    for k, o in enumerate(w_owners):
+        a, sp = w_answers[2 * k], w_answers[2 * k + 1]
+        ck.count("wpipe_" + a.split(" ")[0])
+        ck.count("wpipe_spec_" + sp.split(" ")[0])
+        if not (a.startswith("same") and sp.startswith("ok")):
+            cls = sp.startswith("ok")
+            w_budget[cls] = w_budget.get(cls, 0) + 1
+            if w_budget[cls] > 4:
+                continue
+        if not a.startswith("same"):
+            if not sp.startswith("ok"):
+                ck.violation(f"the written file does not say what the graph handed to the writer says: {sp[:200]} (model vs code: {a[:120]}; "
+                             f"network {o['idx']} {o['profile']} {o['opts']})", dict(replay_of(o), spec=sp, answer=a), found_input=True)
+            else:
+                ck.violation(f"model of the TFLite writer disagrees with the file written for network {o['idx']} {o['profile']}: {a[:200]}; "
+                             f"the Spec accepts the file", dict(replay_of(o), answer=a), found_input=False)
+        elif not sp.startswith("ok"):
+            ck.violation(f"the written file does not say what the graph handed to the writer says: {sp[:200]} (network {o['idx']} {o['profile']} "
+                         f"{o['opts']})", dict(replay_of(o), spec=sp), found_input=True)
+    # ---- second generation: Ethos-U operators of the first output passed through verbatim -------------------------------
+    vb_owners = [o for o in owners if o.get("verbatim_line")]
+    for o, ans in zip(vb_owners, ck.model([o["verbatim_line"] for o in vb_owners]) if vb_owners else []):
+        m = re.match(r"(ok|bad|pre) ethosu_in=(\d+) ethosu_out=(\d+) new=(\d+) n=(\d+) ?(.*)", ans)
+        if not m:
+            raise common.InfraError("unexpected ethosuverbatim answer: " + ans[:300])
+        ck.count("second_generation_files")
+        if m.group(1) == "pre":
+            # the compiled input keeps the duplicate tensor names of its source: operators cannot be identified by their result
+            # names (the same domain restriction as `preserve`), counted and not judged
+            for p in m.group(6).split(" ~ "):
+                ck.count("second_generation_input_outside_domain_" + p.split("|")[0])
+            continue
+        ck.count("generations_%d" % o["gen_count"])
+        ck.count("second_generation_ethosu_operators_passed_through", int(m.group(2)))
+        ck.count("second_generation_new_ethosu_operators", int(m.group(4)))
+        ck.count("second_generation_other_options" if any(g != o["gen_opts"][0] for g in o["gen_opts"][1:]) else "second_generation_same_options")
+        if m.group(1) == "bad":
+            probs = [p.split("|", 1) for p in m.group(6).split(" ~ ")]
+            ck.violation(f"an Ethos-U operator of an already compiled model is not passed through verbatim when the model is compiled again: "
+                         f"{probs[0][0]}: {unhex(probs[0][1])[:260]} (network {o['idx']} {o['profile']}, options per generation {o['gen_opts']})",
+                         dict(replay_of(o), gen_opts=o["gen_opts"], verdict=ans[:1500], request=o["verbatim_line"][:6000],
+                              how="compile the source with gen_opts[0], then the output with gen_opts[1] (and that output with gen_opts[2])"))
     programs = rejected = 0
     nontrivial = set()
     for o, ans, line in zip(owners, answers, lines):
@@ -417,8 +557,9 @@ def main():
             for key, ps in groups.items():
                 if key is not None:
                     ck.count("known_" + key)
-                ck.violation(f"{ps[0][0]}: {ps[0][1][:200]} (network {o['idx']} {o['profile']} {o['desc']['ops']} {o['opts']})",
-                             dict(replay_of(o), verdict=ans, problems=ps, request=line[:6000]), key=key)
+                gen = "" if o.get("gen_count", 1) == 1 else f" [source vs the output of generation {o['gen_count']}: options per generation {o['gen_opts']}]"
+                ck.violation(f"{ps[0][0]}: {ps[0][1][:200]} (network {o['idx']} {o['profile']} {o['desc']['ops']} {o['opts']}){gen}",
+                             dict(replay_of(o), verdict=ans, problems=ps, request=line[:6000], gen_opts=o.get("gen_opts")), key=key)
     for o, ans in zip(rr_owners, rr_answers):
         ck.count("reread_" + ans.split(" ")[0])
         if not ans.startswith("same"):
@@ -435,7 +576,10 @@ def main():
     ck.finish({
         "programs": programs,
         "disagreements_checked": rejected,
-        "evaluations": len(outs) + n_align + n_order + n_rt,
+        "evaluations": len(outs) + n_align + n_order + n_rt + wstats["requests"] + n_hash + 2 * len(w_owners),
+        "writer_function_level": wstats,
+        "writer_hashseed_cases": n_hash,
+        "writer_pipeline_files": len(w_owners),
         "distinct_nontrivial": len(nontrivial),
         "align_requests": n_align,
         "live_table_round_trips": n_rt,
